@@ -20,7 +20,7 @@ def _kv_cases(draw, tier, with_order=False):
     p = draw(st.integers(1, 7))
     n = p + 1 + draw(st.integers(0, 10 if tier == "thorough" else 6))
     uncl = draw(st.booleans())
-    kv = draw(gen.knot_vector(p, n, unclamped=uncl))
+    kv = draw(gen.knot_vector(p, n, unclamped=uncl, micro=True))
     aff = None
     if draw(st.booleans()):
         aff = draw(gen.affine())
@@ -200,7 +200,7 @@ def check_generate(case, ctx):
 @st.composite
 def _norm_cases(draw, tier):
     c = draw(_kv_cases(tier))
-    c["bad"] = draw(st.sampled_from(["short", "long", "decreasing", "decreasing", "none"]))
+    c["bad"] = draw(st.sampled_from(["short", "long", "decreasing", "decreasing", "reversed", "none"]))
     c["pos"] = draw(st.integers(0, 63))
     c["kind"] = draw(st.sampled_from(["curve", "surface_u", "surface_v", "volume_w"]))
     return c
@@ -228,6 +228,8 @@ def check_normalize_reject(case, ctx):
         bkv = kv[:-1]
     elif bad == "long":
         bkv = kv + [kv[-1]]
+    elif bad == "reversed":
+        bkv = kv[::-1]          # decreasing as a whole
     else:
         # introduce one strictly decreasing adjacent pair
         distinct = [i for i in range(len(kv) - 1) if kv[i] < kv[i + 1]]
